@@ -461,6 +461,25 @@ def bounds(tier, seed):
                     "lat_deg": [float(x) for x in m["lat"][c]]}
             cases += _check_face(B[f], orc, desc, fails)
             keys.add((m["name"], f))
+    # ---------------------------------------------------------------- node coordinates handed over as INTEGER arrays (whole degrees)
+    im = mg.quad_patch(3, 2, lon0=-30.0, lat0=10.0, d=20.0, name="quads3x2_integer_coordinates")
+    cases += 1
+    try:
+        import uxarray as _ux
+        from .common import FILL as _FILL
+        Bf = np.asarray(grid_of(im).bounds.values, float)
+        gi = _ux.Grid.from_topology(node_lon=np.array(np.round(im["lon"]), dtype=np.int64), node_lat=np.array(np.round(im["lat"]), dtype=np.int64),
+                                    face_node_connectivity=np.array(im["faces"]), fill_value=_FILL)
+        Bi = np.asarray(gi.bounds.values, float)
+        if Bi.shape != Bf.shape or not np.allclose(Bi, Bf, rtol=0, atol=1e-9):
+            f = int(np.argmax(np.abs(Bi - Bf).reshape(len(Bf), -1).max(axis=1))) if Bi.shape == Bf.shape else 0
+            fails.append({"key": "bounds_differ_for_integer_typed_coordinates", "what": "Grid.bounds of a grid whose node_lon / node_lat were handed over as "
+                          "integer arrays (whole degrees) differs from the bounds of the same grid with float coordinates",
+                          "violated": "every corner lies within the bounds / the bounds are tight", "inputs": {"mesh": im["name"], "face": f},
+                          "observed": Bi[f].tolist() if Bi.shape == Bf.shape else list(Bi.shape), "expected": Bf[f].tolist()})
+    except Exception as e:  # noqa: BLE001
+        fails.append({"key": f"exception_{type(e).__name__}:integer_typed_coordinates", "what": f"Grid.bounds raised {type(e).__name__}: {e}"[:300] + " for integer-typed node coordinates",
+                      "violated": "bounds exist for every admissible face", "inputs": {"mesh": im["name"]}, "observed": "exception", "expected": "bounds"})
     # ---------------------------------------------------------------- a "return only" bounds computation leaves Grid.bounds alone
     # (_populate_bounds(..., return_array=True) with the constant-latitude-edge reading, shown in its docstring, before Grid.bounds)
     try:
